@@ -16,7 +16,7 @@ import (
 // observer role calls, from its own goroutines, exactly what that component calls in production. The binary is built with
 // -race: the race detector's reports go to the log file named by GORACE=log_path=...; this function only drives the schedule.
 //
-// kv: role=insight|telemetry|leader|informer|rotation|none  plus=0|1  rounds=<n>  dw=0|1 (weight changes dynamic reload)
+// kv: role=insight|telemetry|leader|informer|rotation|secrets|none  plus=0|1  rounds=<n>  dw=0|1 (weight changes dynamic reload)
 //
 //	insight    service-insight HTTP handlers: Configurator.UpstreamsForHost / StreamUpstreamsForName (+ the TransportServer lookup)
 //	telemetry  the telemetry collector's getters: Configurator.Get*Counts, GetIngressAnnotations, SecretStore.GetSecretReferenceMap,
@@ -105,12 +105,29 @@ func VerifRace(kv map[string]string) string {
 		{"-i1"}, {"+i1/s1/0"}, {"+c/1", "+e3.0/s3/a", "+e2.0/s2/a"}, {"-t1"}, {"+t1/s2/0"}, {"+k1/htpasswd/2"}, {"+v1/s1/0/pol=p1"},
 		// resources of another controller's class pass through the worker too (never admitted, edited, deleted)
 		{"+v3/s1/0/cls=other"}, {"+v3/s1/1/cls=other", "+e1.0/s1/a+b"}, {"-v3"},
+		// Secrets that come and go: every one of these inserts into / deletes from the secret store's map
+		{"+k8/htpasswd/0", "+k9/jwk/0"}, {"+k8/htpasswd/1"}, {"-k9"}, {"-k8", "+k1/htpasswd/3"},
+	}
+	if kv["role"] == "secrets" {
+		// the telemetry collector's Secrets() data point beside a worker that does little else than add, update and delete Secrets
+		observer(func() { _ = len(w.lbc.secretStore.GetSecretReferenceMap()) })
+		observer(func() { _ = len(w.lbc.secretStore.GetSecretReferenceMap()) })
 	}
 	for r := 0; r < rounds; r++ {
 		for _, m := range muts[r%len(muts)] {
 			w.apply(m)
 		}
 		w.drain()
+		if kv["role"] == "secrets" {
+			// what syncSecret does with the store, many times over (the store's methods are the worker's only way to it)
+			for i := 0; i < 40; i++ {
+				name := "kx" + strconv.Itoa(i%7)
+				w.lbc.secretStore.AddOrUpdateSecret(verifLbcSecret(name, "htpasswd", r))
+				if i%3 == 2 {
+					w.lbc.secretStore.DeleteSecret("d/" + name)
+				}
+			}
+		}
 	}
 	stop.Store(true)
 	wg.Wait()
